@@ -890,6 +890,12 @@ impl<R: Read> RdbReader<R> {
                         let remaining_count = count - 1;
                         let mut entry_idx = 0;
                         
+                        if remaining_count == 0 {
+                            // An empty stream (every entry deleted) is written as the marker alone:
+                            // re-create the key, otherwise it is lost by the restart.
+                            storage.set_value(db, key.clone(), Value::empty_stream(), None)?;
+                        }
+
                         while entry_idx < remaining_count {
                             if entry_idx + 2 >= remaining_count {
                                 break; // Not enough data for a complete entry
